@@ -2492,6 +2492,11 @@ def _path_mkdir(interp, path, *a, **k):
     return None
 
 
+@model(np.isscalar)
+def _np_isscalar(interp, x):
+    return isinstance(x, (int, float, complex, str, bytes, np.generic, SInt, SReal, SBool, SF))
+
+
 @model(np.min, np.amin)
 def _np_min(interp, x, *a, **k):
     if isinstance(x, (list, tuple)):
